@@ -216,6 +216,8 @@ def main():
                 rac.fail(key, f"C01 {key}: raised {type(ex).__name__}: {ex}", scr, "Manager.set_value")
     from rac import c01_tasks
     c01_tasks.run(rac)
+    from rac import eqvals
+    eqvals.run(rac, "C01")
     rac.section("chains", "chains v[i+1] = v[i] + 1 of length N defined consumer-before-producer, then v[0] assigned",
                 "N in 50, 1500, 6000", exhaustive=False)
     import xdeps
